@@ -4,9 +4,11 @@ C12 — PES headers and timestamps are decoded and encoded per ISO 13818-1.
 import Astits.Proofs.Layout
 import Astits.Proofs.PESRT
 import Astits.Generated.Exprs
+import Astits.Props.TieTactics
 import Astits.Proofs.SpecEq.PES
 import Astits.Proofs.PESReader
 namespace Astits.C12
+open Astits.Tie
 
 /-- PTS and DTS: all 2^33 values, whatever the 4-bit prefix ('0010', '0011', '0001') -/
 theorem pts_roundtrip (prefix4 base : Nat) (hb : base < 2 ^ 33) :
@@ -77,6 +79,35 @@ theorem generated_hasOptionalHeader : ∀ s : Fin 256, Generated.hasPESOptionalH
   decide +kernel
 theorem generated_isVideoStream : ∀ s : Fin 256, Generated.isVideoStream s.val = isVideoStream s.val := by
   decide +kernel
+
+/-- three bytes as a 24-bit big-endian number, with shifts and ors or with multiplications and additions -/
+theorem be24 (b0 b1 b2 : Nat) (h1 : b1 < 256) (h2 : b2 < 256) :
+    (b0 <<< 16 ||| b1 <<< 8) ||| b2 = b0 * 65536 + b1 * 256 + b2 := by
+  have a1 : b0 <<< 16 ||| b1 <<< 8 = b0 <<< 16 + b1 <<< 8 :=
+    (Nat.shiftLeft_add_eq_or_of_lt (a := b0) (i := 16) (b := b1 <<< 8) (by rw [Nat.shiftLeft_eq]; omega)).symm
+  have a2 : b0 <<< 16 + b1 <<< 8 = (b0 * 256 + b1) <<< 8 := by
+    simp only [Nat.shiftLeft_eq]; omega
+  rw [a1, a2, ← Nat.shiftLeft_add_eq_or_of_lt (by omega : b2 < 2 ^ 8)]
+  simp only [Nat.shiftLeft_eq]; omega
+
+/-- tie: the test for the PES start code prefix 0x000001 as written in Go today (`isPESPayload`, data.go), on the
+length of the payload and its first three bytes -/
+theorem generated_isPESPayload (len b0 b1 b2 : Nat) (h0 : b0 < 256) (h1 : b1 < 256) (h2 : b2 < 256) :
+    Generated.isPESPayload len b0 b1 b2 = (decide (3 ≤ len) && (b0 * 65536 + b1 * 256 + b2 == 1)) := by
+  unfold Generated.isPESPayload
+  try simp only [be24 _ _ _ h1 h2]
+  bool_arith
+
+theorem isPESPayload_eq_generated (bs : Bytes) (h : ∀ b ∈ bs, b < 256) :
+    isPESPayload bs = Generated.isPESPayload bs.length (bs.getD 0 0) (bs.getD 1 0) (bs.getD 2 0) := by
+  have hb : ∀ k, bs.getD k 0 < 256 := by
+    intro k
+    rw [List.getD_eq_getElem?_getD]
+    cases hk : bs[k]? with
+    | none => simp
+    | some v => simp only [Option.getD_some]; exact h v (List.mem_of_getElem? hk)
+  rw [generated_isPESPayload _ _ _ _ (hb 0) (hb 1) (hb 2)]
+  rfl
 
 example : parseDSMTrickMode 0x6b = { trickModeControl := 3, fieldID := 1, intraSliceRefresh := 0, frequencyTruncation := 3 } := by decide
 
